@@ -430,11 +430,11 @@ def main():
              'kind_free_text': 'Lean 4 model + theorems (lake project DTML, no Mathlib in model files), driver '
                                'executable for the correspondence line protocol'},
             {'name': 'harness', 'path': 'harness/', 'serves_properties': claimed,
-             'kind_free_text': 'Python: constant translator (Gen.lean), correspondence runs model vs /repo, '
+             'kind_free_text': 'Python: translators that regenerate parts of the model from /repo on every run (consts.py -> Gen.lean tables; trans_*.py -> Gen*.lean control flow, each with an equality obligation in Props), correspondence runs model vs /repo, '
                                'independent property oracles, verdict + evidence'},
         ],
         'checks': [],
-        'notes': 'See DESIGN.md. Every check: regenerate Gen.lean from /repo, lake build, forbidden-token grep and '
+        'notes': 'See DESIGN.md (section 0.8 lists what is translated from the source). Every check: regenerate Gen.lean and the Gen*.lean files from /repo, lake build, forbidden-token grep and '
                  '#print axioms audit, correspondence run (Lean driver vs real code), independent oracle on the '
                  'real code; known findings in known_findings.json.',
         'not_applicable': [],
